@@ -127,3 +127,52 @@ package nom
 //@   assert[amount] r.Amount != nil && val(r.Amount) == val(ab.Amount)
 //@   assert[descendant-count] len(r.DescendantBlocks) == len(ab.DescendantBlocks)
 //@   assert[same-hash] abHashUF(r.Version, r.ChainIdentifier, r.BlockType, r.PreviousHash, r.Height, r.MomentumAcknowledged.Hash, r.MomentumAcknowledged.Height, r.Address, r.ToAddress, val(r.Amount), r.TokenStandard, r.FromBlockHash, 0, bytesval(r.Data), r.FusedPlasma, r.Difficulty, r.Nonce.Data) == abHashUF(ab.Version, ab.ChainIdentifier, ab.BlockType, ab.PreviousHash, ab.Height, ab.MomentumAcknowledged.Hash, ab.MomentumAcknowledged.Height, ab.Address, ab.ToAddress, val(ab.Amount), ab.TokenStandard, ab.FromBlockHash, 0, bytesval(ab.Data), ab.FusedPlasma, ab.Difficulty, ab.Nonce.Data)
+
+// ======================================================================================================================
+// Property C18 (a block returned as JSON and fed back parses to the same block): the two conversions between AccountBlock
+// and its JSON image AccountBlockMarshal copy every field, and the descendant list element for element (same length, same
+// order, same blocks). NOT covered: encoding/json itself (reflection), the decimal text of the amount and the hex text of the
+// nonce (external string conversions, assumed to be inverse to each other).
+//@ func AccountBlock.ToNomMarshalJson(ab) -> (aux)
+//@   requires ab != nil && ab.Amount != nil
+//@   ensures[scalars] aux != nil && fresh(aux) && aux.Version == ab.Version && aux.ChainIdentifier == ab.ChainIdentifier && aux.BlockType == ab.BlockType && aux.Height == ab.Height && aux.FusedPlasma == ab.FusedPlasma && aux.Difficulty == ab.Difficulty && aux.BasePlasma == ab.BasePlasma && aux.TotalPlasma == ab.TotalPlasma
+//@   ensures[hashes-and-addresses] aux.Hash == ab.Hash && aux.PreviousHash == ab.PreviousHash && aux.MomentumAcknowledged.Hash == ab.MomentumAcknowledged.Hash && aux.MomentumAcknowledged.Height == ab.MomentumAcknowledged.Height && aux.Address == ab.Address && aux.ToAddress == ab.ToAddress && aux.TokenStandard == ab.TokenStandard && aux.FromBlockHash == ab.FromBlockHash && aux.ChangesHash == ab.ChangesHash
+//@   ensures[byte-strings] aux.Data.arr == ab.Data.arr && aux.Data.off == ab.Data.off && len(aux.Data) == len(ab.Data) && aux.PublicKey.arr == ab.PublicKey.arr && aux.PublicKey.off == ab.PublicKey.off && len(aux.PublicKey) == len(ab.PublicKey) && aux.Signature.arr == ab.Signature.arr && aux.Signature.off == ab.Signature.off && len(aux.Signature) == len(ab.Signature)
+//@   ensures[descendants-one-for-one] len(aux.DescendantBlocks) == len(ab.DescendantBlocks) && (forall k int :: 0 <= k && k < len(ab.DescendantBlocks) ==> aux.DescendantBlocks[k] == ab.DescendantBlocks[k])
+//@   modifies nothing
+//@   loop 1
+//@     invariant aux != nil && fresh(aux) && fresh(aux.DescendantBlocks) && len(aux.DescendantBlocks) == rangeindex + 1 && (forall k int :: 0 <= k && k <= rangeindex ==> aux.DescendantBlocks[k] == ab.DescendantBlocks[k])
+
+//@ func AccountBlockMarshal.FromNomMarshalJson(ab) -> (aux)
+//@   requires ab != nil
+//@   ensures[scalars] aux != nil && fresh(aux) && aux.Version == ab.Version && aux.ChainIdentifier == ab.ChainIdentifier && aux.BlockType == ab.BlockType && aux.Height == ab.Height && aux.FusedPlasma == ab.FusedPlasma && aux.Difficulty == ab.Difficulty && aux.BasePlasma == ab.BasePlasma && aux.TotalPlasma == ab.TotalPlasma
+//@   ensures[hashes-and-addresses] aux.Hash == ab.Hash && aux.PreviousHash == ab.PreviousHash && aux.MomentumAcknowledged.Hash == ab.MomentumAcknowledged.Hash && aux.MomentumAcknowledged.Height == ab.MomentumAcknowledged.Height && aux.Address == ab.Address && aux.ToAddress == ab.ToAddress && aux.TokenStandard == ab.TokenStandard && aux.FromBlockHash == ab.FromBlockHash && aux.ChangesHash == ab.ChangesHash
+//@   ensures[byte-strings] aux.Data.arr == ab.Data.arr && aux.Data.off == ab.Data.off && len(aux.Data) == len(ab.Data) && aux.PublicKey.arr == ab.PublicKey.arr && aux.PublicKey.off == ab.PublicKey.off && len(aux.PublicKey) == len(ab.PublicKey) && aux.Signature.arr == ab.Signature.arr && aux.Signature.off == ab.Signature.off && len(aux.Signature) == len(ab.Signature)
+//@   ensures[descendants-one-for-one] len(aux.DescendantBlocks) == len(ab.DescendantBlocks) && (forall k int :: 0 <= k && k < len(ab.DescendantBlocks) ==> aux.DescendantBlocks[k] == ab.DescendantBlocks[k])
+//@   ensures[amount-present] aux.Amount != nil
+//@   modifies nothing
+//@   loop 1
+//@     invariant aux != nil && fresh(aux) && fresh(aux.DescendantBlocks) && len(aux.DescendantBlocks) == rangeindex + 1 && (forall k int :: 0 <= k && k <= rangeindex ==> aux.DescendantBlocks[k] == ab.DescendantBlocks[k])
+
+// Round trip through the JSON image (the two contracts above composed): every field covered by the block hash except the
+// amount text and the nonce text comes back unchanged, and so does the descendant list.
+//@ lemma account_block_json_image_roundtrip
+//@   vars ab *AccountBlock
+//@   assume ab != nil && ab.Amount != nil
+//@   let m = ab.ToNomMarshalJson()
+//@   let r = m.FromNomMarshalJson()
+//@   assert[scalars] r != nil && r.Version == ab.Version && r.ChainIdentifier == ab.ChainIdentifier && r.BlockType == ab.BlockType && r.Height == ab.Height && r.FusedPlasma == ab.FusedPlasma && r.Difficulty == ab.Difficulty && r.BasePlasma == ab.BasePlasma && r.TotalPlasma == ab.TotalPlasma
+//@   assert[hashes-and-addresses] r.Hash == ab.Hash && r.PreviousHash == ab.PreviousHash && r.MomentumAcknowledged.Hash == ab.MomentumAcknowledged.Hash && r.MomentumAcknowledged.Height == ab.MomentumAcknowledged.Height && r.Address == ab.Address && r.ToAddress == ab.ToAddress && r.TokenStandard == ab.TokenStandard && r.FromBlockHash == ab.FromBlockHash && r.ChangesHash == ab.ChangesHash
+//@   assert[byte-strings] r.Data.arr == ab.Data.arr && r.Data.off == ab.Data.off && len(r.Data) == len(ab.Data) && r.PublicKey.arr == ab.PublicKey.arr && r.PublicKey.off == ab.PublicKey.off && len(r.PublicKey) == len(ab.PublicKey) && r.Signature.arr == ab.Signature.arr && r.Signature.off == ab.Signature.off && len(r.Signature) == len(ab.Signature)
+//@   assert[descendants-one-for-one] len(r.DescendantBlocks) == len(ab.DescendantBlocks) && (forall k int :: 0 <= k && k < len(ab.DescendantBlocks) ==> r.DescendantBlocks[k] == ab.DescendantBlocks[k])
+
+// The direct JSON decoder of a block copies every field of the parsed image (encoding/json itself is outside: the image is
+// whatever it produced), the descendant list element for element.
+//@ func AccountBlock.UnmarshalJSON(ab, data) -> (err)
+//@   requires ab != nil
+//@   ensures-local[scalars] err == nil ==> ab.Version == aux.Version && ab.ChainIdentifier == aux.ChainIdentifier && ab.BlockType == aux.BlockType && ab.Height == aux.Height && ab.FusedPlasma == aux.FusedPlasma && ab.Difficulty == aux.Difficulty && ab.BasePlasma == aux.BasePlasma && ab.TotalPlasma == aux.TotalPlasma && ab.Amount != nil
+//@   ensures-local[hashes-and-addresses] err == nil ==> ab.Hash == aux.Hash && ab.PreviousHash == aux.PreviousHash && ab.MomentumAcknowledged.Hash == aux.MomentumAcknowledged.Hash && ab.MomentumAcknowledged.Height == aux.MomentumAcknowledged.Height && ab.Address == aux.Address && ab.ToAddress == aux.ToAddress && ab.TokenStandard == aux.TokenStandard && ab.FromBlockHash == aux.FromBlockHash && ab.ChangesHash == aux.ChangesHash
+//@   ensures-local[byte-strings] err == nil ==> ab.Data.arr == aux.Data.arr && ab.Data.off == aux.Data.off && len(ab.Data) == len(aux.Data) && ab.PublicKey.arr == aux.PublicKey.arr && ab.PublicKey.off == aux.PublicKey.off && len(ab.PublicKey) == len(aux.PublicKey) && ab.Signature.arr == aux.Signature.arr && ab.Signature.off == aux.Signature.off && len(ab.Signature) == len(aux.Signature)
+//@   ensures-local[descendants-one-for-one] err == nil ==> len(ab.DescendantBlocks) == len(aux.DescendantBlocks) && (forall k int :: 0 <= k && k < len(aux.DescendantBlocks) ==> ab.DescendantBlocks[k] == aux.DescendantBlocks[k])
+//@   loop 1
+//@     invariant aux != nil && aux != ab && len(ab.DescendantBlocks) == len(aux.DescendantBlocks) && ab.DescendantBlocks.arr != aux.DescendantBlocks.arr && (forall k int :: 0 <= k && k <= rangeindex ==> ab.DescendantBlocks[k] == aux.DescendantBlocks[k])
